@@ -24,7 +24,7 @@ man={
  "version":1,
  "setup_cmd":"make -C /verif -s setup",
  "hooks":{"guard":"verif","enable":"go/packages and `go test -c` are run with -tags=verif,purego; harnesses, the runtime package internal/zzverifrt and native stub rewrites come in through build overlays; no hook source exists in /repo","baseline_off_cmd":"cd /repo && go test -mod=mod -json -vet=off -count=1 -timeout 25m ./...","source_commits":[],"add_only":True},
- "engines":[{"name":"symgo","path":"/verif/symgo","serves_properties":claimed,"kind_free_text":"symbolic executor for Go SSA (go/ssa of /repo's working tree, rebuilt on every run) emitting SMT-LIB2 (bit-vector or integer encoding) for z3 4.8.12 / z3 5.1.0; path-at-a-time, every symbolic branch and every assertion decided by the solver; counterexamples replayed against the natively compiled code before being reported"}],
+ "engines":[{"name":"symgo","path":"/verif/symgo","serves_properties":claimed,"kind_free_text":"symbolic executor for Go SSA (go/ssa of /repo's working tree, rebuilt on every run) emitting SMT-LIB2 (bit-vector or integer encoding) for z3 4.8.12 / z3 5.1.0; path-at-a-time, every symbolic branch and every assertion decided by the solver; goroutine schedules of opt-in units are decisions of the same execution (symgo/sched.go); counterexamples — inputs and, where applicable, the schedule — replayed against the natively compiled code before being reported"}],
  "checks":[], "not_applicable":[],
  "notes":"See DESIGN.md. Every claimed check is decided by SMT queries over a symbolic execution of the real functions, for all inputs within the bounds written in its evidence file; unknown/timeouts are reported as INCONCLUSIVE, never as success. Fixes of genuine defects are recorded in known_findings.txt."
 }
